@@ -628,4 +628,118 @@ func (c *conn) Close() error {""")]),
 		delete(tags, t)""")]),
  ("c07-flush-wrong-oldtag", "C07", [("serveconn.go", "if tags.remove(msg.Oldtag) {", "_ = msg\n\t\t\t\tif tags.remove(req.Tag) {")]),
  ("c07-identity-by-tag-only", "C07", [("serveconn.go", "if !ok || active.request != done.request {", "if !ok || active.request.Tag != done.request.Tag {")]),
+
+ # ---- C09
+ ("c09-swap-uname-aname", "C09", [("csession.go", """	m := MessageTattach{
+		Fid:   fid,
+		Afid:  afid,
+		Uname: uname,
+		Aname: aname,
+	}""", """	m := MessageTattach{
+		Fid:   fid,
+		Afid:  afid,
+		Uname: aname,
+		Aname: uname,
+	}""")]),
+ ("c09-offset-through-uint32", "C09", [("csession.go", """	resp, err := c.transport.send(ctx, MessageTread{
+		Fid:    fid,
+		Offset: uint64(offset),""", """	resp, err := c.transport.send(ctx, MessageTread{
+		Fid:    fid,
+		Offset: uint64(uint32(offset)),""")]),
+ ("c09-server-swaps-fids", "C09", [("ssesssion.go", "session.Walk(ctx, msg.Fid, msg.Newfid, msg.Wnames...)", "session.Walk(ctx, msg.Newfid, msg.Fid, msg.Wnames...)")]),
+ ("c09-server-write-offset-int32", "C09", [("ssesssion.go", "n, err := session.Write(ctx, msg.Fid, msg.Data, int64(msg.Offset))", "n, err := session.Write(ctx, msg.Fid, msg.Data, int64(int32(msg.Offset)))")]),
+ ("c09-create-perm-mode-confused", "C09", [("ssesssion.go", "session.Create(ctx, msg.Fid, msg.Name, msg.Perm, msg.Mode)", "session.Create(ctx, msg.Fid, msg.Name, uint32(msg.Mode), Flag(msg.Perm))")]),
+ ("c09-client-open-iounit-zero", "C09", [("csession.go", "	return ropen.Qid, ropen.IOUnit, nil", "	return ropen.Qid, 0, nil")]),
+ ("c09-server-rcreate-iounit-dropped", "C09", [("ssesssion.go", """		return MessageRcreate{
+			Qid:    qid,
+			IOUnit: iounit,
+		}, nil""", """		_ = iounit
+		return MessageRcreate{
+			Qid: qid,
+		}, nil""")]),
+ ("c09-client-wstat-wrong-type", "C09", [("csession.go", """	_, ok := resp.(MessageRwstat)
+	if !ok {
+		return ErrUnexpectedMsg
+	}""", """	_, ok := resp.(MessageRclunk)
+	if !ok {
+		return ErrUnexpectedMsg
+	}""")]),
+ ("c09-read-count-from-cap", "C09", [("csession.go", "		Count:  uint32(len(p)),", "		Count:  uint32(cap(p)),")]),
+ ("c09-server-read-data-whole-buffer", "C09", [("ssesssion.go", """		return MessageRread{
+			Data: p[:n],
+		}, nil""", """		_ = n
+		return MessageRread{
+			Data: p,
+		}, nil""")]),
+ ("c09-write-count-from-len", "C09", [("ssesssion.go", """		return MessageRwrite{
+			Count: uint32(n),
+		}, nil""", """		_ = n
+		return MessageRwrite{
+			Count: uint32(len(msg.Data)),
+		}, nil""")]),
+ ("c09-client-drops-transport-error", "C09", [("csession.go", """	resp, err := c.transport.send(ctx, MessageTstat{Fid: fid})
+	if err != nil {
+		return Dir{}, err
+	}""", """	resp, _ := c.transport.send(ctx, MessageTstat{Fid: fid})""")]),
+
+ # ---- C01
+ ("c01-swap-uname-aname-decl", "C01", [("messages.go", """type MessageTauth struct {
+	Afid  Fid
+	Uname string
+	Aname string
+}""", """type MessageTauth struct {
+	Afid  Fid
+	Aname string
+	Uname string
+}""")]),
+ ("c01-dir-uid-gid-swapped", "C01", [("types.go", """	UID    string
+	GID    string""", """	GID    string
+	UID    string""")]),
+ ("c01-tclunk-tremove-consts", "C01", [("fcall.go", """	Tclunk
+	Rclunk
+	Tremove
+	Rremove""", """	Tremove
+	Rremove
+	Tclunk
+	Rclunk""")]),
+ ("c01-newmessage-drop-rflush", "C01", [("messages.go", """	case Rflush:
+		return MessageRflush{}, nil // No message body for this response.
+""", "")]),
+ ("c01-newmessage-wrong-struct", "C01", [("messages.go", """	case Tremove:
+		return MessageTremove{}, nil""", """	case Tremove:
+		return MessageTclunk{}, nil""")]),
+ ("c01-string-len-uint32", "C01", [("encoding.go", "if err := binary.Write(e.wr, binary.LittleEndian, uint16(len(v))); err != nil {", "if err := binary.Write(e.wr, binary.LittleEndian, uint32(len(v))); err != nil {")]),
+ ("c01-big-endian-read", "C01", [("encoding.go", """		case *uint8, *uint16, *uint32, *uint64, *FcallType, *Tag, *QType, *Fid, *Flag:
+			if err := binary.Read(d.rd, binary.LittleEndian, v); err != nil {""", """		case *uint8, *uint16, *uint32, *uint64, *FcallType, *Tag, *QType, *Fid, *Flag:
+			if err := binary.Read(d.rd, binary.BigEndian, v); err != nil {""")]),
+ ("c01-qid-order", "C01", [("encoding.go", "if err := e.encode(v.Type, v.Version, v.Path); err != nil {", "if err := e.encode(v.Version, v.Type, v.Path); err != nil {")]),
+ ("c01-size-twstat-no-extra", "C01", [("encoding.go", """			case *MessageTwstat, MessageTwstat:
+				s += size9p(uint16(0)) // for extra size field before dir
+""", """			case *MessageTwstat, MessageTwstat:
+""")]),
+ ("c01-size-qids-count-missing", "C01", [("encoding.go", """		case []Qid:
+			s += size9p(uint16(0))
+			elements := make([]interface{}, len(v))""", """		case []Qid:
+			elements := make([]interface{}, len(v))""")]),
+ ("c01-encode-drop-flag-case", "C01", [("encoding.go", """		case uint8, uint16, uint32, uint64, FcallType, Tag, QType, Fid, Flag,
+			*uint8, *uint16, *uint32, *uint64, *FcallType, *Tag, *QType, *Fid, *Flag:
+			if err := binary.Write(e.wr, binary.LittleEndian, v); err != nil {""", """		case uint8, uint16, uint32, uint64, FcallType, Tag, QType, Fid,
+			*uint8, *uint16, *uint32, *uint64, *FcallType, *Tag, *QType, *Fid, *Flag:
+			if err := binary.Write(e.wr, binary.LittleEndian, v); err != nil {""")]),
+ ("c01-type-method-wrong", "C01", [("messages.go", "func (MessageTwstat) Type() FcallType   { return Twstat }", "func (MessageTwstat) Type() FcallType   { return Tstat }")]),
+ ("c01-decode-time-no-utc-ms", "C01", [("encoding.go", "*v = time.Unix(int64(epoch), 0).UTC()", "*v = time.Unix(0, int64(epoch)).UTC()")]),
+ ("c01-fields9p-reverse", "C01", [("encoding.go", """	for i := 0; i < rv.NumField(); i++ {
+		f := rv.Field(i)
+
+		if !f.CanInterface() {""", """	for i := rv.NumField() - 1; i >= 0; i-- {
+		f := rv.Field(i)
+
+		if !f.CanInterface() {""")]),
+ ("c01-dir-size-not-doubled-decode", "C01", [("encoding.go", """				var ll uint16
+				if err := d.decode(&ll); err != nil {
+					return err
+				}
+			case MessageTwstat, *MessageTwstat:
+				if err := d.decode(elements[0]); err != nil {""", """			case MessageTwstat, *MessageTwstat:
+				if err := d.decode(elements[0]); err != nil {""")]),
 ]
